@@ -54,14 +54,14 @@ def convLoop (gen : Key → List (Key × Rat)) (sq : Sq) (acc : Poly) (p : Poly)
     let acc' ← addGen sq acc (gen k) v
     convLoop gen sq acc' r
 
-/-- `PUSOMatrix() if type(P) == PUBOMatrix else qv.PUSO()` -/
-def kindPuboToPuso (κ : Kind) : Kind := if κ = .pubom then .pusom else .puso
-/-- `PUBOMatrix() if type(H) == PUSOMatrix else qv.PUBO()` -/
-def kindPusoToPubo (κ : Kind) : Kind := if κ = .pusom then .pubom else .pubo
-/-- `QUSOMatrix() if type(Q) == QUBOMatrix else qv.QUSO()` -/
-def kindQuboToQuso (κ : Kind) : Kind := if κ = .qubom then .qusom else .quso
-/-- `QUBOMatrix() if type(L) == QUSOMatrix else qv.QUBO()` -/
-def kindQusoToQubo (κ : Kind) : Kind := if κ = .qusom then .qubom else .qubo
+/-- `PUSOMatrix() if type(P) in (PUBOMatrix, QUBOMatrix) else qv.PUSO()` -/
+def kindPuboToPuso (κ : Kind) : Kind := if κ = .pubom ∨ κ = .qubom then .pusom else .puso
+/-- `PUBOMatrix() if type(H) in (PUSOMatrix, QUSOMatrix) else qv.PUBO()` -/
+def kindPusoToPubo (κ : Kind) : Kind := if κ = .pusom ∨ κ = .qusom then .pubom else .pubo
+/-- `QUSOMatrix() if type(Q) in (QUBOMatrix, PUBOMatrix) else qv.QUSO()` -/
+def kindQuboToQuso (κ : Kind) : Kind := if κ = .qubom ∨ κ = .pubom then .qusom else .quso
+/-- `QUBOMatrix() if type(L) in (QUSOMatrix, PUSOMatrix) else qv.QUBO()` -/
+def kindQusoToQubo (κ : Kind) : Kind := if κ = .qusom ∨ κ = .pusom then .qubom else .qubo
 
 /-- `pubo_to_puso(P)` where `P.items()` is `p` and `type(P)` is `κ` -/
 def puboToPuso (κ : Kind) (p : Poly) : Except Err Poly :=
